@@ -580,7 +580,12 @@ class RoiSubsetStateNd(SubsetState):
         if not self.roi.defined():
             return np.zeros(raw_comps[0].shape, dtype=bool)
 
-        if raw_comps[0].ndim == data.ndim and all([att in data.pixel_component_ids for att in self._atts]):
+        # Index arrays in the view can give a result with the same number of
+        # dimensions as the data, but whose axes are not those of the data
+        view_items = view if isinstance(view, (tuple, list)) else (view,)
+        basic_view = all(v is None or v is Ellipsis or isinstance(v, slice) for v in view_items)
+
+        if basic_view and raw_comps[0].ndim == data.ndim and all([att in data.pixel_component_ids for att in self._atts]):
             # This is a special case - the ROI is defined in pixel space, so we
             # can apply it to a single slice and then broadcast it to all other
             # dimensions. We start off by extracting a slice which takes only
